@@ -218,6 +218,18 @@ def run(pid: str, tier: str, seed: int, *, replay: dict | None = None) -> int:
                     ck.model_violation(r3, "BrokerRabbit (refinement of BrokerAbs)")
                 ck.add_tlc(r3, f"BrokerRabbit, {cfg3}: Conservation, TagmapSound, HeldHasTag, LocalHasTag, OneStage, PrefetchBound, "
                                "FinishedHoldsNothing, DueIsVisible, refinement BrokerRabbit => BrokerAbs (time-to-live judged at arrival)")
+            # the recorded finding rabbit-requeue-gap at the level of the design: with callers that can be cancelled between the two
+            # round trips of requeue() TLC finds the lost message; a requeue that replaces the message in one step has no such gap
+            rc_ = tlc.run_tlc("MC_BrokerRabbit", "MC_BrokerRabbit_cancel.cfg", timeout=3000)
+            if rc_.ok or rc_.violated != "Conservation":
+                raise tlc.MachineryError(f"BrokerRabbit (cancellable requeue): expected Conservation to fail, got {rc_.violated}")
+            ck.add_tlc(rc_, "BrokerRabbit with cancellable callers: TLC's counter-example to Conservation is the recorded finding rabbit-requeue-gap "
+                            "(Enqueue, Start, ServerDeliver, Callback, Consume, RequeueAck, CancelInTransit)")
+            if tier == "thorough":
+                ra = tlc.run_tlc("MC_BrokerRabbit", "MC_BrokerRabbit_cancel_atomic.cfg", timeout=3000)
+                if not ra.ok:
+                    ck.model_violation(ra, "BrokerRabbit (atomic requeue, cancellable callers)")
+                ck.add_tlc(ra, "BrokerRabbit with a one-step requeue and cancellable callers: all invariants and the refinement hold")
         if pid == "C12":
             # the recorded finding rabbit-prefetch-expiry at the level of the design: with the pinned algorithm TLC finds the
             # hand-over of an expired message (strict refinement fails); with the check moved to the hand-over it holds
